@@ -97,15 +97,22 @@ FEATURE_SETS = [
     ("smallvec", ["--features", "smallvec"]),
     ("serde", ["--features", "serde"]),
     ("smallvec+serde", ["--features", "smallvec,serde"]),
-    ("no-default+hardcoded-data", ["--no-default-features"]),
+    ("no-default+hardcoded-data", ["--no-default-features", "--features", "hardcoded"]),
     # the crate as users ship it: profile `relna` of harness/Cargo.toml (debug assertions and overflow checks OFF) and
     # without --cfg unicode_bidi_verif; a side effect hidden in a debug_assert!, a wrap-around that only the overflow
     # checks stop, or code under cfg(not(unicode_bidi_verif)) shows here and nowhere else
     ("release-noassert", ["--profile", "relna", "--target-dir", "target-relna"]),
     # the two axes crossed (C20 only): no std with smallvec, and the release-like build with both optional features
-    ("no-default+smallvec", ["--no-default-features", "--features", "smallvec"]),
+    ("no-default+smallvec", ["--no-default-features", "--features", "smallvec,hardcoded"]),
     ("release-noassert+smallvec+serde", ["--profile", "relna", "--target-dir", "target-relna", "--features", "smallvec,serde"]),
+    # the crate WITHOUT its feature `hardcoded-data` (how a user who brings his own Unicode data builds it): the harness
+    # compiles against stand-ins (harness/src/hd.rs) and runs only the cases that name a data source of their own or
+    # need no character data; code the crate keeps under cfg(not(feature = "hardcoded-data")) is in this binary only
+    ("no-hardcoded-data", ["--no-default-features", "--features", "std"]),
 ]
+NODATA = FEATURE_SETS[8]
+# streams with cases that name their own data source (DS=…): the properties that run one get the no-hardcoded-data build too
+DS_STREAMS = {"C12", "C01", "C07", "C13", "C02"}
 
 
 def sh(cmd, cwd=None, env=None, timeout=None):
@@ -253,6 +260,10 @@ def build_harness(extra, log, tag="default"):
     elif tag == "hooks":
         rc, out = sh(["cargo", "build", "--release", "--offline"] + extra, cwd=HARN, timeout=3000)
         built = os.path.join(HARN, "target", "release", "ubidi-harness")
+    elif tag == "no-hardcoded-data":
+        rc, out = sh(["cargo", "build", "--release", "--offline", "--target-dir", "target-nodata"] + extra, cwd=HARN,
+                     env={"RUSTFLAGS": ""}, timeout=3000)
+        built = os.path.join(HARN, "target-nodata", "release", "ubidi-harness")
     else:
         rc, out = sh(["cargo", "build", "--release", "--offline", "--target-dir", "target-plain"] + extra, cwd=HARN,
                      env={"RUSTFLAGS": ""}, timeout=3000)
@@ -408,6 +419,8 @@ def main():
     feature_sets = FEATURE_SETS if prop == "C20" else [FEATURE_SETS[0], FEATURE_SETS[5]]
     if prop == "C19":
         feature_sets = feature_sets + [FEATURE_SETS[2]]     # serde: reading a Level is a construction path
+    if prop != "C20" and any(sn in DS_STREAMS for sn, _ in cfg["streams"]):
+        feature_sets = feature_sets + [NODATA]
     if any(sn == "STAGE" for sn, _ in cfg["streams"]):
         feature_sets = feature_sets + [("hooks", [])]       # the only build with the cfg-guarded hook module
     njobs = 16 if tier == "thorough" else 8
@@ -429,6 +442,8 @@ def main():
                 cnt = int(share) if share > 1 else max(1, int(total * share))
                 if (sname == "STAGE") != (tag == "hooks"):
                     continue              # STAGE only on the hooks build, everything else only on the builds without it
+                if tag == "no-hardcoded-data" and sname not in DS_STREAMS:
+                    continue              # nothing in that stream names a data source
                 if tag == "release-noassert" and prop != "C20":
                     if share <= 1 and not cfg.get("exhaustive"):
                         cnt = max(1, cnt // 3)   # the same first cases as the default build
@@ -465,7 +480,7 @@ def main():
                         os.remove(f_)
                     except OSError:
                         pass
-            if prop == "C20":
+            if prop == "C20" and tag_ != "no-hardcoded-data":     # the digest operation needs the built-in data
                 h = hashlib.sha256()
                 for r in rs:
                     if r["op"] in ("digest",):
@@ -491,7 +506,7 @@ def main():
             # find the first differing line
             base = [r for r in results if r["features"] == "default" and r["op"] == "digest"]
             detail = ""
-            for tag, _ in FEATURE_SETS[1:]:
+            for tag, _ in FEATURE_SETS[1:8]:
                 other = [r for r in results if r["features"] == tag and r["op"] == "digest"]
                 for a, b in zip(base, other):
                     if a["line"] != b["line"]:
